@@ -354,6 +354,32 @@ CmPos(r, nf, pat, lo, hi) ==
   ELSE [nfl |-> m.cur, err |-> "",
         pos |-> [pt \in 1..r.np |-> LET e == EntryOf(t.order, pt - 1) IN IF e < 0 THEN <<>> ELSE m.vals[e + 1]]]
 
+\* the deprecated multi-parallelogram scheme (method 2; no encoder writes it any more): every parallelogram met swinging RIGHT from the entry's corner
+\* until the walk is back or leaves the mesh, no flags, the average with integer division towards zero
+RECURSIVE MpGather(_, _, _, _, _, _, _, _)
+MpGather(d, t, p, vals, start, c, acc, fuel) ==
+  IF c = INV THEN [sum |-> acc.sum, n |-> acc.n, err |-> ""] ELSE
+  IF fuel = 0 THEN [sum |-> acc.sum, n |-> acc.n, err |-> "ub:parallelogram-walk-does-not-end"] ELSE
+  LET pr == ParaAt(d, t, p, vals, c)
+      acc1 == IF pr.ok THEN [sum |-> [k \in 1..3 |-> acc.sum[k] + pr.pred[k]], n |-> acc.n + 1] ELSE acc
+      c1 == SwingR(d, c) IN
+  MpGather(d, t, p, vals, start, IF c1 = start THEN INV ELSE c1, acc1, fuel - 1)
+RECURSIVE MpVals(_, _, _, _, _, _)
+MpVals(d, t, p, vals, lo, hi) ==
+  IF p = Len(t.order) THEN [vals |-> vals, err |-> ""] ELSE
+  LET corr == <<3 * p + 1, 3 * p + 2, 3 * p + 3>> IN
+  IF p = 0 THEN MpVals(d, t, 1, <<[c \in 1..3 |-> IA!Unwrap(0, corr[c], lo, hi)]>>, lo, hi) ELSE
+  LET g == MpGather(d, t, p, vals, t.cor[p + 1], t.cor[p + 1], [sum |-> <<0, 0, 0>>, n |-> 0], 6 * Len(t.order) + 12) IN
+  IF g.err # "" THEN [vals |-> vals, err |-> g.err] ELSE
+  LET pred == IF g.n = 0 THEN vals[p] ELSE [c \in 1..3 |-> TruncDiv(g.sum[c], g.n)] IN
+  MpVals(d, t, p + 1, Append(vals, [c \in 1..3 |-> IA!Unwrap(pred[c], corr[c], lo, hi)]), lo, hi)
+MpPos(r, nf, lo, hi) ==
+  IF r.out # "acc" THEN <<>> ELSE
+  LET t == Traverse(r.d, nf) IN
+  IF t.err # "" THEN <<>> ELSE
+  LET m == MpVals(r.d, t, 0, <<>>, lo, hi) IN
+  IF m.err # "" THEN <<>> ELSE [pt \in 1..r.np |-> LET e == EntryOf(t.order, pt - 1) IN IF e < 0 THEN <<>> ELSE m.vals[e + 1]]
+
 \* ---------------------------------------------------------------- attribute seams: a second attribute with its own connectivity
 \* After the connectivity, face by face and corner by corner (3f, 3f+1, 3f+2): an edge without opposite face is a seam by definition; an edge whose
 \* opposite face has a smaller id was decided there; every other edge reads one bit.  A seam edge cuts the attribute's corner table
